@@ -71,7 +71,7 @@ def jobs(tier):
 
 
 def requirements(tier):
-    return dict(_requirements(tier), **{"rt:orbit-asked-again-after-edit": 500})
+    return dict(_requirements(tier), **{"rt:orbit-asked-again-after-edit": 500, "rt:lines-with-surrounding-blanks": 500})
 
 
 def _requirements(tier):
@@ -287,6 +287,20 @@ def run_roundtrip(ctx, job, idx, rng, st):
         ctx.violation("C12/valid-tle-rejected", dict(w, exc=repr(exc)), f"Tle(text) raised {exc!r} for a well-formed TLE")
         return
     check_parsed(ctx, tle, fields, name, w, "parse")
+    # ---- A2: blanks around the lines (copy-paste from a mail, an indented listing): the library validates the stripped
+    # lines; whatever it accepts must then be decoded from the right columns
+    if idx % 4 == 0:
+        pad1, pad2 = rng.choice([("", " "), (" ", ""), (" ", " "), ("", "\t"), ("  ", "  "), ("", "   "), ("", "")])
+        trail = rng.choice(["", " ", "   "]) if (pad1 or pad2) else rng.choice([" ", "   "])
+        padded = (name + "\n" if name else "") + pad1 + l1 + trail + "\n" + pad2 + l2 + trail
+        ctx.count("rt:lines-with-surrounding-blanks")
+        try:
+            t2 = Tle(padded)
+        except Exception:
+            ctx.count("rt:lines-with-surrounding-blanks:rejected")
+        else:
+            ctx.count("rt:lines-with-surrounding-blanks:accepted")
+            check_parsed(ctx, t2, fields, name, dict(w, padded_text=padded), "lines with surrounding blanks", force_key="C12/accepted-line-with-leading-blanks-decoded-from-shifted-columns")
     try:
         shown = str(tle).splitlines()
     except Exception as exc:
@@ -382,8 +396,27 @@ def run_roundtrip(ctx, job, idx, rng, st):
         ctx.expect(olines[0] == name, "C12/roundtrip-name", dict(w2, name=name), f"name line {olines[0]!r} written for name {name!r}")
 
 
-def check_parsed(ctx, tle, fields, name, w, tag):
+def check_parsed(ctx, tle, fields, name, w, tag, force_key=None):
     """Every attribute of the parsed Tle against the exact printed value."""
+    if force_key is not None:
+        # one mechanism key for every field (history / spelling scenarios): route the calls through a proxy context
+        real = ctx
+
+        class _Proxy:
+            def __getattr__(self, n):
+                return getattr(real, n)
+
+            def expect(self, ok, key, *a, **k):
+                return real.expect(ok, force_key, *a, **k)
+
+            def violation(self, key, *a, **k):
+                return real.violation(force_key, *a, **k)
+
+            def resid(self, name_, val, tol, key=None, **k):
+                return real.resid(name_, val, tol, key=force_key if key else None, **k)
+
+        ctx = _Proxy()
+
     def eq(attr, exp, key=None):
         try:
             got = getattr(tle, attr)
